@@ -578,3 +578,753 @@ Proof.
         unfold in_members. rewrite Ho2. apply existsb_exists. exists b. split; [|apply Nat.eqb_refl]. apply in_or_app. right. now left.
   - rewrite last_dirty_form. exact Hlast.
 Qed.
+
+(* ================================================================ soundness of the chain / direct-pair actions *)
+Lemma tchain_in g : forall chain prev0 c, tchain g prev0 chain -> castlike_data_first prev0 chain = true -> In c chain ->
+  exists prev y, In prev (prev0 :: map out_of chain) /\ n_outs c = [y] /\ In y (map out_of chain) /\ n_caps c = [] /\
+    In prev (n_ins c) /\ str_in (nop c) ALLOWED_ELEMWISE = true /\
+    fside_ok g (String.eqb (nop c) "CastLike") prev 0 (n_ins c) = true /\
+    (nop c = "CastLike"%string -> exists r, n_ins c = prev :: r).
+Proof.
+  induction chain as [|m r IH]; simpl; intros prev0 c H Hdf Hin; [contradiction|].
+  destruct H as (y & Ho & Hc & Hp & Ha & Hs & _ & _ & Hr). apply andb_prop in Hdf as [Hd1 Hd2].
+  assert (Hoy : out_of m = y) by (unfold out_of; now rewrite Ho). rewrite Hoy in *.
+  destruct Hin as [<-|Hin].
+  - exists prev0, y. repeat split; auto. intro Hcl. rewrite Hcl in Hd1. simpl in Hd1.
+    destruct (n_ins m) as [|x rest]; [discriminate|]. apply Nat.eqb_eq in Hd1. subst x. eauto.
+  - destruct (IH y c Hr Hd2 Hin) as (prev & y' & Hp' & H1 & H2 & H3 & H4 & H5 & H6 & H7).
+    exists prev, y'. repeat split; auto. all: try (destruct Hp' as [<-|Hp']; [right; now left | right; now right]).
+Qed.
+
+Lemma pwn_rank_ge {A} (F : list A -> A) vs v : In v vs -> length (shape v) <= length (shape (pwn F vs)).
+Proof.
+  intro Hin. pose proof (prank_ge vs v Hin) as H. unfold pwn. cbn [shape]. rewrite app_length, repeat_length. lia.
+Qed.
+
+Section TSound.
+  Variable A : Type.
+  Notation V := (tensor A).
+  Variable sem : string -> list nat -> list V -> option (list V).
+  Hypothesis sem_proper : forall op ats vs vs' o, Forall2 teq vs vs' -> sem op ats vs = Some o ->
+    exists o', sem op ats vs' = Some o' /\ Forall2 teq o o'.
+  Hypothesis Htr : sem_transpose_spec A sem op_type.
+  Variable F : string -> list nat -> list A -> A.
+  Hypothesis Hpw : sem_pointwise_spec_n A sem op_type F.
+  Variable Fcl : list nat -> V -> A -> A.
+  Hypothesis Hcl : sem_castlike_spec_n A sem op_type Fcl.
+  Hypothesis Hcl_type : castlike_type_only A Fcl.
+  Hypothesis Hacc : sem_accepts_spec_n A sem op_type.
+
+  Notation evalg := (eval V sem).
+  Notation stepg := (step V sem).
+  Notation refinesg := (refines V teq sem).
+
+  (* SSA, and values flagged by _is_scalar_const_value have one element (annotation truth: property C08) *)
+  Record tadmissible (g : tgraph) (e : env V) : Prop := {
+    tadm_ssa : ssa V (tg_nodes g) e;
+    tadm_scalar : forall ef x v, evalg (tg_nodes g) e = Some ef -> tg_scalar g x = true -> ef x = Some v -> all1 (shape v) = true }.
+
+  Lemma lookups_In_val (E : env V) : forall xs vs u v, lookups V E xs = Some vs -> In u xs -> E u = Some v -> In v vs.
+  Proof.
+    induction xs as [|x r IH]; simpl; intros vs u v Hl Hu Hv; [contradiction|].
+    destruct (E x) as [a|] eqn:Ex; [|discriminate]. destruct (lookups V E r) as [ws|] eqn:Er; [|discriminate]. injection Hl as <-.
+    destruct Hu as [->|Hu]; [left; congruence | right; eauto].
+  Qed.
+  Lemma lookups_single (E : env V) xs x u : lookups V E xs = Some [x] -> In u xs -> E u = Some x.
+  Proof.
+    destruct xs as [|y [|z r]]; simpl; intros Hl Hu; try contradiction.
+    - destruct (E y) eqn:Ey; [|discriminate]. injection Hl as <-. destruct Hu as [<-|[]]. exact Ey.
+    - destruct (E y); [|discriminate]. destruct (E z); [|discriminate]. destruct (lookups V E r); discriminate.
+  Qed.
+
+  Lemma tnode_val n perm vs o : is_T n = true -> perm_of n = Some perm -> sem (n_op n) (n_attrs n) vs = Some o ->
+    exists x y, vs = [x] /\ o = [y] /\ teq y (transpose perm x) /\ length perm = length (shape x).
+  Proof.
+    intros HT Hp Hs. unfold is_T, nop in HT. apply String.eqb_eq in HT. rewrite (perm_of_attrs _ _ Hp) in Hs.
+    exact (Htr _ _ _ _ HT Hs).
+  Qed.
+
+  Lemma tside_operands g (E : env V) (r : name -> name) prev x :
+    E (r prev) = Some x -> forall ins pos vs, fside_ok g false prev pos ins = true ->
+    (forall u w, In u ins -> tg_scalar g u = true -> E (r u) = Some w -> all1 (shape w) = true) ->
+    lookups V E (map r ins) = Some vs -> Forall (fun v => all1 (shape v) = true \/ shape v = shape x) vs.
+  Proof.
+    intros Hp. induction ins as [|u rest IH]; intros pos vs Hs Hsc Hl.
+    - simpl in Hl. injection Hl as <-. constructor.
+    - cbn [map lookups] in Hl. destruct (E (r u)) as [w|] eqn:Eu; [|discriminate].
+      destruct (lookups V E (map r rest)) as [ws|] eqn:El; [|discriminate]. injection Hl as <-.
+      cbn [fside_ok andb] in Hs. apply andb_prop in Hs as [H1 H2]. constructor.
+      + rewrite orb_false_r in H1. apply orb_prop in H1 as [H1|H1].
+        * apply Nat.eqb_eq in H1. subst u. rewrite Hp in Eu. injection Eu as <-. now right.
+        * left. apply (Hsc u w); auto. now left.
+      + apply (IH (S pos)); auto. intros u0 w0 Hu0. apply Hsc. now right.
+  Qed.
+
+  Lemma fside_scalar g : forall ins pos prev u, fside_ok g false prev pos ins = true -> In u ins -> u = prev \/ tg_scalar g u = true.
+  Proof.
+    induction ins as [|x rest IH]; intros pos prev u Hs Hu; [contradiction|].
+    cbn [fside_ok andb] in Hs. apply andb_prop in Hs as [H1 H2]. destruct Hu as [<-|Hu]; [|eapply IH; eauto].
+    rewrite orb_false_r in H1. apply orb_prop in H1 as [H1|H1]; [left; now apply Nat.eqb_eq in H1 | now right].
+  Qed.
+
+  Lemma castlike_not_pw : str_in "CastLike" pw_ops = false.
+  Proof. vm_compute. reflexivity. Qed.
+
+  Section TAction.
+    Variables (g : tgraph) (a : action) (T1 T2 : node) (p q : list nat) (e ef : env V).
+    Hypothesis Hadm : tadmissible g e.
+    Hypothesis Htf : tchain_facts g a T1 T2 p q.
+    Hypothesis Hdf : castlike_data_first (ac_t1 a) (ac_chain a) = true.
+    Hypothesis Hev : evalg (tg_nodes g) e = Some ef.
+    Let Hcs := tf_struct _ _ _ _ _ _ Htf.
+    Let Hnd : NoDup (defs (tg_nodes g)) := proj1 (tadm_ssa _ _ Hadm).
+    Let Hinv : is_inverse p q := proj1 (inv_ok_perms p q (tf_inv _ _ _ _ _ _ Htf)).
+    Let Hp : is_perm p := proj1 (proj2 (inv_ok_perms p q (tf_inv _ _ _ _ _ _ Htf))).
+    Let Hq : is_perm q := proj2 (proj2 (inv_ok_perms p q (tf_inv _ _ _ _ _ _ Htf))).
+
+    Definition tinD (x : name) : bool := existsb (Nat.eqb x) (dirty a).
+    Definition trl (x : name) (v w : V) : Prop := if tinD x then tfull p v w else teq v w.
+    Notation Inv := (rinv V (rho a) trl).
+
+    Lemma tinD_In x : tinD x = true <-> In x (dirty a).
+    Proof.
+      unfold tinD. rewrite existsb_exists. split.
+      - intros (y & Hy & E). apply Nat.eqb_eq in E. now subst.
+      - intro H. exists x. split; auto. apply Nat.eqb_refl.
+    Qed.
+    Lemma tinD_false x : ~ In x (dirty a) -> tinD x = false.
+    Proof. intro H. destruct (tinD x) eqn:E; auto. apply tinD_In in E. contradiction. Qed.
+    Lemma trl_teq x v w : tinD x = false -> trl x v w -> teq v w.
+    Proof. unfold trl. now intros ->. Qed.
+    Lemma trl_full x v w : In x (dirty a) -> trl x v w -> tfull p v w.
+    Proof. unfold trl. intro H. apply tinD_In in H. now rewrite H. Qed.
+    Lemma trl_same_elems x v w : trl x v w -> same_elems v w.
+    Proof.
+      unfold trl. destruct (tinD x); intro H; [|now apply teq_same_elems]. apply (trel_same_elems p); auto. now left.
+    Qed.
+
+    Lemma trl_list_teq xs0 vs ws : (forall x, In x xs0 -> tinD x = false) -> rel_list V trl xs0 vs ws -> Forall2 teq vs ws.
+    Proof.
+      intros H Hr. induction Hr as [|x v w xr vr wr Hx _ IH]; constructor.
+      - apply (trl_teq x); auto. apply H. now left.
+      - apply IH. intros; apply H; now right.
+    Qed.
+    Lemma trl_list_of_teq : forall xs0 vs ws, Forall2 teq vs ws -> length vs = length xs0 ->
+      (forall x, In x xs0 -> tinD x = false) -> rel_list V trl xs0 vs ws.
+    Proof.
+      induction xs0 as [|x xr IH]; intros vs ws H2 Hl Hx; destruct H2 as [|v w vr wr Hvw H2]; simpl in Hl; try discriminate; constructor.
+      - unfold trl. now rewrite (Hx x (or_introl eq_refl)).
+      - apply IH; auto. intros; apply Hx; now right.
+    Qed.
+    Lemma trl_list_same xs0 vs ws : rel_list V trl xs0 vs ws -> Forall2 same_elems vs ws.
+    Proof. induction 1; constructor; eauto using trl_same_elems. Qed.
+
+    Lemma chain_out_defined c : In c (ac_chain a) -> In (out_of c) (defs (tg_nodes g)).
+    Proof.
+      intro Hc. unfold defs. apply in_flat_map. exists c. split; [now apply (cs_chain_in _ _ _ _ _ Hcs)|].
+      rewrite (cs_chain_outs _ _ _ _ _ Hcs c Hc). now left.
+    Qed.
+
+    Lemma tinv_init : Inv e e.
+    Proof.
+      pose proof (proj2 (tadm_ssa _ _ Hadm)) as Hfree. split; [|auto]. intros x v Hx.
+      assert (Hnd' : ~ In x (defs (tg_nodes g))) by (intro Hd; rewrite (Hfree _ Hd) in Hx; discriminate).
+      assert (H1 : x <> ac_t1 a).
+      { intros ->. apply Hnd'. unfold defs. apply in_flat_map. exists T1. split; [apply (cs_T1_in _ _ _ _ _ Hcs)|].
+        rewrite (cs_T1_outs _ _ _ _ _ Hcs). now left. }
+      assert (H2 : x <> ac_t2 a).
+      { intros ->. apply Hnd'. unfold defs. apply in_flat_map. exists T2. split; [apply (cs_T2_in _ _ _ _ _ Hcs)|].
+        rewrite (cs_T2_outs _ _ _ _ _ Hcs). now left. }
+      rewrite (rho_other a x H1 H2). exists v. split; auto. unfold trl. rewrite tinD_false; [apply teq_refl|].
+      intros [E|Hc]; [now symmetry in E|]. apply Hnd'. unfold chain_outs in Hc. apply in_map_iff in Hc as (c & <- & Hcin).
+      now apply chain_out_defined.
+    Qed.
+
+    Lemma tsrc_clean : tinD (ac_src a) = false /\ ac_src a <> ac_t1 a /\ ac_src a <> ac_t2 a.
+    Proof.
+      split; [|split; [eapply src_ne_t1 | eapply src_ne_t2]; eauto].
+      apply tinD_false. intro H. apply (src_not_dirty _ _ a T1 T2 Hcs). apply in_or_app. now left.
+    Qed.
+
+    Lemma tT1_step em em' e1 : em (ac_t1 a) = None -> Inv em em' -> stepg em T1 = Some e1 -> Inv e1 em'.
+    Proof.
+      intros Hfresh Hi Hs.
+      apply (rinv_dropped_step V sem (rho a) trl em em' T1 (ac_t1 a) e1 Hi Hs (cs_T1_outs _ _ _ _ _ Hcs) Hfresh).
+      intros vs v Hl Hsem.
+      destruct (tnode_val T1 p vs [v] (tf_T1_op _ _ _ _ _ _ Htf) (tf_T1_perm _ _ _ _ _ _ Htf) Hsem) as (x & y & -> & Hy & Hyt & Hlen).
+      injection Hy as <-.
+      destruct (tf_T1_ins _ _ _ _ _ _ Htf) as [r Hins]. unfold n_uses in Hl. rewrite Hins in Hl. cbn [app] in Hl.
+      destruct (lookups_cons_inv V _ _ _ _ Hl) as (x0 & vr & Ex & _ & Evs). injection Evs as <- _.
+      destruct Hi as [Hi1 _]. destruct (Hi1 _ _ Ex) as (w & Ew & Hr).
+      destruct tsrc_clean as (Hc1 & Hc2 & Hc3). rewrite (rho_other a _ Hc2 Hc3) in Ew.
+      pose proof (trl_teq _ _ _ Hc1 Hr) as Hxw.
+      exists w. rewrite (rho_t1 _ _ a T1 T2 Hcs). split; auto.
+      unfold trl. rewrite (proj2 (tinD_In _) (t1_dirty a)). split.
+      - eapply teq_trans; [exact Hyt|]. apply transpose_teq; auto.
+      - rewrite <- (proj1 Hxw). now symmetry.
+    Qed.
+
+    Lemma tT2_step em em' e1 : em (ac_t2 a) = None -> Inv em em' -> stepg em T2 = Some e1 -> Inv e1 em'.
+    Proof.
+      intros Hfresh Hi Hs.
+      apply (rinv_dropped_step V sem (rho a) trl em em' T2 (ac_t2 a) e1 Hi Hs (cs_T2_outs _ _ _ _ _ Hcs) Hfresh).
+      intros vs v Hl Hsem.
+      destruct (tnode_val T2 q vs [v] (tf_T2_op _ _ _ _ _ _ Htf) (tf_T2_perm _ _ _ _ _ _ Htf) Hsem) as (x & y & -> & Hy & Hyt & Hlen).
+      injection Hy as <-.
+      assert (Ex : em (last (dirty a) 0) = Some x).
+      { apply (lookups_single em (n_uses T2)); auto. unfold n_uses. apply in_or_app. left. exact (tf_T2_reads _ _ _ _ _ _ Htf). }
+      destruct Hi as [Hi1 _]. destruct (Hi1 _ _ Ex) as (w & Ew & Hr).
+      rewrite (last_dirty _ _ a T1 T2 Hcs) in Ew.
+      destruct (trl_full _ _ _ (last_dirty_in a) Hr) as [Hxw Hlw].
+      exists w. rewrite (rho_t2 a). split; auto.
+      unfold trl. rewrite (tinD_false _ (t2_not_dirty _ _ a T1 T2 Hcs)).
+      eapply teq_trans; [exact Hyt|]. eapply teq_trans; [apply transpose_teq; [exact Hq | exact Hlen | exact Hxw]|].
+      apply transpose_inverse; auto.
+    Qed.
+
+    Lemma tother_step n em em' e1 : In n (tg_nodes g) -> keep a n = true -> in_members (chain_outs a) n = false ->
+      (forall y, In y (n_outs n) -> em y = None) -> NoDup (n_outs n) ->
+      Inv em em' -> stepg em n = Some e1 -> exists e1', stepg em' (subst_map (rho a) n) = Some e1' /\ Inv e1 e1'.
+    Proof.
+      intros Hn Hk Hnm Hfresh Hndo Hi Hs.
+      assert (Houts : forall y, In y (n_outs n) -> tinD y = false /\ y <> ac_t2 a /\ y <> ac_t1 a).
+      { intros y Hy. unfold keep in Hk. apply andb_prop in Hk as [Hk1 Hk2]. apply negb_true_iff in Hk1, Hk2.
+        assert (H1 : y <> ac_t1 a).
+        { intros ->. rewrite (T1_unique _ _ a T1 T2 Hnd Hcs n Hn Hy) in Hk1.
+          rewrite (node_is_true _ _ (cs_T1_outs _ _ _ _ _ Hcs)) in Hk1. discriminate. }
+        assert (H2 : y <> ac_t2 a).
+        { intros ->. rewrite (T2_unique _ _ a T1 T2 Hnd Hcs n Hn Hy) in Hk2.
+          rewrite (node_is_true _ _ (cs_T2_outs _ _ _ _ _ Hcs)) in Hk2. discriminate. }
+        split; [|split]; auto. apply tinD_false. intros [E|Hc]; [now symmetry in E|].
+        unfold chain_outs in Hc. apply in_map_iff in Hc as (c & Hc & Hcin).
+        pose proof (cs_chain_outs _ _ _ _ _ Hcs c Hcin) as Ho. rewrite Hc in Ho.
+        assert (n = c).
+        { eapply (defs_unique (tg_nodes g)); eauto; [now apply (cs_chain_in _ _ _ _ _ Hcs) | rewrite Ho; now left]. }
+        subst c. destruct (chain_nonempty_member _ _ a T1 T2 Hcs n Hcin). congruence. }
+      apply (rinv_kept_step V teq sem (rho a) trl em em' n e1 Hi Hs); auto.
+      - intros y Hy. destruct (Houts y Hy) as (_ & H2 & H1). now apply rho_other.
+      - intros vs vs' o Hl Hl' Hrl Hsem Hlen.
+        assert (Hteq : Forall2 teq vs vs').
+        { apply (trl_list_teq (n_uses n)); auto. intros x Hx. apply tinD_false. intro Hd.
+          exact (kept_clean _ _ a T1 T2 Hcs n x Hn Hk Hnm Hd Hx). }
+        destruct (sem_proper _ _ _ _ _ Hteq Hsem) as (o' & Hs' & Ho). exists o'. split; auto.
+        apply trl_list_of_teq; auto. intros y Hy. now destruct (Houts y Hy).
+    Qed.
+
+    Lemma touts_related ef' o : Inv ef ef' -> lookups V ef (tg_outputs g) = Some o ->
+      exists o', lookups V ef' (map (rho a) (tg_outputs g)) = Some o' /\ Forall2 teq o o'.
+    Proof.
+      intros Hi Hl. destruct (rinv_lookups V (rho a) trl _ _ _ _ Hi Hl) as (o' & Hl' & Hr).
+      exists o'. split; auto. apply (trl_list_teq (tg_outputs g)); auto.
+      intros x Hx. apply tinD_false. intro Hd. destruct (cs_unobs _ _ _ _ _ Hcs x Hd) as [H _]. contradiction.
+    Qed.
+
+    (* ---- ranks along the chain, in the final environment of the original run: every operand of a pointwise member
+            has at most |p| dimensions, because ranks only grow along the chain and T2 accepted its last value *)
+    Lemma tchain_ranks : forall chain prev, tchain g prev chain -> castlike_data_first prev chain = true ->
+      (forall c, In c chain -> In c (tg_nodes g)) ->
+      (forall vl, ef (last (map out_of chain) prev) = Some vl -> length (shape vl) <= length p) ->
+      (forall vp, ef prev = Some vp -> length (shape vp) <= length p) /\
+      (forall c, In c chain -> str_in (nop c) pw_ops = true -> forall u v, In u (n_ins c) -> ef u = Some v -> length (shape v) <= length p).
+    Proof.
+      induction chain as [|c r IH]; intros prev Hch Hdf0 Hin Hlast; [split; [exact Hlast | intros c []]|].
+      simpl in Hch. destruct Hch as (y & Ho & Hc & Hp0 & Ha & Hs & _ & _ & Hr). simpl in Hdf0. apply andb_prop in Hdf0 as [Hd1 Hd2].
+      assert (Hoy : out_of c = y) by (unfold out_of; now rewrite Ho). rewrite Hoy in Hd2.
+      assert (Hl : last (map out_of (c :: r)) prev = last (map out_of r) y).
+      { destruct r as [|n0 r0]; [simpl; exact Hoy|].
+        change (last (map out_of (c :: n0 :: r0)) prev) with (last (map out_of (n0 :: r0)) prev). apply last_indep. discriminate. }
+      rewrite Hl in Hlast.
+      destruct (IH y Hr Hd2 (fun c0 H => Hin c0 (or_intror H)) Hlast) as [IHy IHr].
+      (* the value of c in ef *)
+      destruct (eval_consistent V sem _ _ _ c (tadm_ssa _ _ Hadm) Hev (Hin c (or_introl eq_refl))) as (vs & o & Hlk & Hsem & Hlo).
+      unfold n_uses in Hlk. rewrite Hc, app_nil_r in Hlk. rewrite Ho in Hlo.
+      assert (Hyv : exists yv, o = [yv] /\ ef y = Some yv).
+      { simpl in Hlo. destruct (ef y) as [yv|]; [|discriminate]. injection Hlo as <-. eauto. }
+      destruct Hyv as (yv & -> & Ey). pose proof (IHy _ Ey) as Hry.
+      assert (Hcase : (forall vp, ef prev = Some vp -> length (shape vp) <= length p) /\
+                      (str_in (nop c) pw_ops = true -> forall u v, In u (n_ins c) -> ef u = Some v -> length (shape v) <= length p)).
+      { destruct (allowed_in_pw _ Ha) as [Hop|Hop].
+        - (* CastLike: the data operand is the chain value *)
+          split; [|rewrite Hop, castlike_not_pw; discriminate].
+          destruct (Hcl _ _ _ _ Hop Hsem) as (x0 & t & y0 & -> & Hy0 & Hyt). injection Hy0 as <-.
+          rewrite Hop in Hd1. simpl in Hd1.
+          destruct (n_ins c) as [|i0 rest]; [discriminate|]. apply Nat.eqb_eq in Hd1. subst i0.
+          simpl in Hlk. destruct (ef prev) as [vp|] eqn:Ep; [|discriminate]. destruct (lookups V ef rest); [|discriminate].
+          injection Hlk as <- _. intros vp0 E0. injection E0 as <-. rewrite (proj1 Hyt) in Hry. exact Hry.
+        - assert (Hcl0 : String.eqb (nop c) "CastLike" = false).
+          { destruct (String.eqb_spec (nop c) "CastLike") as [E|]; auto. rewrite E, castlike_not_pw in Hop. discriminate. }
+          rewrite Hcl0 in Hs.
+          destruct (ef prev) as [vp|] eqn:Ep; [|exfalso; exact (lookups_defined V ef _ _ prev Hlk Hp0 Ep)].
+          assert (Hd : Forall (fun v => all1 (shape v) = true \/ shape v = shape vp) vs).
+          { apply (tside_operands g ef (fun u => u) prev vp Ep (n_ins c) 0 vs Hs).
+            - intros u w _ Hsc Eu. exact (tadm_scalar _ _ Hadm ef u w Hev Hsc Eu).
+            - now rewrite map_id. }
+          assert (Hvp : In vp vs) by exact (lookups_In_val ef _ _ _ _ Hlk Hp0 Ep).
+          destruct (Hpw _ _ _ _ Hop Hsem (operands_ok_data vp vs Hvp Hd)) as (y0 & Hy0 & Hyt). injection Hy0 as <-.
+          assert (Hall : forall u v, In u (n_ins c) -> ef u = Some v -> length (shape v) <= length p).
+          { intros u v Hu Ev. pose proof (lookups_In_val ef _ _ _ _ Hlk Hu Ev) as Hv.
+            pose proof (pwn_rank_ge (F (op_type (n_op c)) (n_attrs c)) vs v Hv) as H. rewrite <- (proj1 Hyt) in H. lia. }
+          split; [|intros _; exact Hall]. intros vp0 E0. injection E0 as <-. exact (Hall prev vp Hp0 Ep). }
+      destruct Hcase as [H1 H2]. split; [exact H1|].
+      intros c0 [<-|Hc0]; [exact H2 | now apply IHr].
+    Qed.
+
+    Lemma chain_rank_bound c : In c (ac_chain a) -> str_in (nop c) pw_ops = true ->
+      forall u v, In u (n_ins c) -> ef u = Some v -> length (shape v) <= length p.
+    Proof.
+      apply (tchain_ranks (ac_chain a) (ac_t1 a) (tf_chain _ _ _ _ _ _ Htf) Hdf (cs_chain_in _ _ _ _ _ Hcs)).
+      intros vl El. change (last (map out_of (ac_chain a)) (ac_t1 a)) with (last (chain_outs a) (ac_t1 a)) in El.
+      rewrite <- last_dirty_form in El.
+      (* T2 accepted it: its rank is |q| = |p| *)
+      destruct (eval_consistent V sem _ _ _ T2 (tadm_ssa _ _ Hadm) Hev (cs_T2_in _ _ _ _ _ Hcs)) as (vs & o & Hlk & Hsem & _).
+      destruct (tnode_val T2 q vs o (tf_T2_op _ _ _ _ _ _ Htf) (tf_T2_perm _ _ _ _ _ _ Htf) Hsem) as (x & y & -> & _ & _ & Hlen).
+      assert (Ex : ef (last (dirty a) 0) = Some x).
+      { apply (lookups_single ef (n_uses T2)); auto. unfold n_uses. apply in_or_app. left. exact (tf_T2_reads _ _ _ _ _ _ Htf). }
+      rewrite El in Ex. injection Ex as ->. rewrite <- Hlen. rewrite (proj1 Hinv). auto.
+    Qed.
+
+    (* ---- a member of the chain: computes the transposed value in the other layout *)
+    Lemma trel_operands c prev : In prev (dirty a) -> fside_ok g false prev 0 (n_ins c) = true ->
+      forall em vs vs', (forall x v, em x = Some v -> ef x = Some v) -> lookups V em (n_ins c) = Some vs ->
+      rel_list V trl (n_ins c) vs vs' -> Forall2 (trel p) vs vs'.
+    Proof.
+      intros Hprev Hs em vs vs' Hle Hl Hrl.
+      assert (Hgen : forall ins vs0 vs0', rel_list V trl ins vs0 vs0' -> (forall u, In u ins -> u = prev \/ tg_scalar g u = true) ->
+                lookups V em ins = Some vs0 -> Forall2 (trel p) vs0 vs0').
+      { intros ins vs0 vs0' Hr0. induction Hr0 as [|u v w xs0 vs1 ws1 Hrel Hrest IH]; intros Hsc Hl0; constructor.
+        - destruct (lookups_cons_inv V _ _ _ _ Hl0) as (v0 & vr0 & Eu & _ & Evs). injection Evs as <- _.
+          unfold trl in Hrel. destruct (tinD u) eqn:ED; [now left|]. right. split; auto.
+          destruct (Hsc u (or_introl eq_refl)) as [->|Hsu]; [apply tinD_In in Hprev; congruence|].
+          exact (tadm_scalar _ _ Hadm ef u _ Hev Hsu (Hle _ _ Eu)).
+        - destruct (lookups_cons_inv V _ _ _ _ Hl0) as (v0 & vr0 & _ & Er & Evs). injection Evs as _ <-.
+          apply IH; auto. intros u0 Hu0. apply Hsc. now right. }
+      apply (Hgen (n_ins c)); auto. intros u Hu. exact (fside_scalar g _ _ _ _ Hs Hu).
+    Qed.
+
+    Lemma tchain_step c em em' e1 : In c (ac_chain a) ->
+      (forall x v, em x = Some v -> ef x = Some v) ->
+      (forall y, In y (n_outs c) -> em y = None) -> NoDup (n_outs c) ->
+      Inv em em' -> stepg em c = Some e1 -> exists e1', stepg em' (subst_map (rho a) c) = Some e1' /\ Inv e1 e1'.
+    Proof.
+      intros Hc Hle Hfresh Hndo Hi Hs.
+      destruct (tchain_in g _ _ c (tf_chain _ _ _ _ _ _ Htf) Hdf Hc) as (prev & y & Hprev & Ho & Hy & Hcaps & Hpin & Hallow & Hside & Hfirst).
+      assert (HpD : In prev (dirty a)) by exact Hprev.
+      assert (HyD : tinD y = true) by (apply tinD_In; now right).
+      apply (rinv_kept_step V teq sem (rho a) trl em em' c e1 Hi Hs); auto.
+      { intros y0 Hy0. rewrite Ho in Hy0. destruct Hy0 as [<-|[]]. now apply (rho_chain_out _ _ a T1 T2 Hcs). }
+      intros vs vs' o Hl Hl' Hrl Hsem Hlen.
+      unfold n_uses in Hl, Hl', Hrl. rewrite Hcaps, app_nil_r in Hl, Hl', Hrl.
+      pose proof (trl_list_same _ _ _ Hrl) as Hse.
+      destruct Hi as [Hi1 Hi2].
+      destruct (em prev) as [x|] eqn:Ex; [|exfalso; exact (lookups_defined V em _ _ prev Hl Hpin Ex)].
+      destruct (Hi1 _ _ Ex) as (x' & Ex' & Hrx). destruct (trl_full _ _ _ HpD Hrx) as [Hxx' Hlx'].
+      destruct (allowed_in_pw _ Hallow) as [Hop|Hop].
+      - (* CastLike(chain value, type operand) *)
+        destruct (Hfirst Hop) as [rest Hins].
+        destruct (Hcl _ _ _ _ Hop Hsem) as (x0 & t & yv & Evs0 & -> & Hyv). subst vs.
+        rewrite Hins in Hl, Hl', Hrl. simpl in Hl. rewrite Ex in Hl.
+        destruct (lookups V em rest) as [vr|]; [|discriminate]. injection Hl as Ex0 Evr. subst x0.
+        assert (Hacc' : sem (n_op c) (n_attrs c) vs' <> None).
+        { apply (Hacc (n_op c) (n_attrs c) [x; t] vs'); [unfold nop in Hop; rewrite Hop; reflexivity | congruence | exact Hse | now left]. }
+        destruct (sem (n_op c) (n_attrs c) vs') as [o'|] eqn:Es'; [|contradiction].
+        destruct (Hcl _ _ _ _ Hop Es') as (x1 & t' & yv' & Evs1 & -> & Hyv'). subst vs'.
+        cbn [map] in Hl'. simpl in Hl'. rewrite Ex' in Hl'. destruct (lookups V em' (map (rho a) rest)); [|discriminate].
+        injection Hl' as Ex1 _. subst x1.
+        exists [yv']. split; auto. rewrite Ho. constructor; [|constructor]. unfold trl. rewrite HyD.
+        inversion Hse as [|? ? ? ? _ Hse2]; subst. inversion Hse2 as [|? ? ? ? Htt' _]; subst.
+        assert (Hlen' : length p = length (shape yv')) by (rewrite (proj1 Hyv'); simpl; now symmetry).
+        split; [|now symmetry].
+        eapply teq_trans; [exact Hyv|]. eapply teq_trans; [apply tmap_teq; exact Hxx'|].
+        eapply teq_trans; [apply tmap_transpose|].
+        apply transpose_teq; auto. eapply teq_trans; [|apply teq_sym; exact Hyv'].
+        split; [reflexivity|]. simpl. intros idx _. apply Hcl_type. exact Htt'.
+      - (* pointwise with one-element side operands *)
+        assert (Hcl0 : String.eqb (nop c) "CastLike" = false).
+        { destruct (String.eqb_spec (nop c) "CastLike") as [E|]; auto. rewrite E, castlike_not_pw in Hop. discriminate. }
+        rewrite Hcl0 in Hside.
+        assert (Hd : Forall (fun v => all1 (shape v) = true \/ shape v = shape x) vs).
+        { apply (tside_operands g em (fun u => u) prev x Ex (n_ins c) 0 vs Hside).
+          - intros u w _ Hsc Eu. exact (tadm_scalar _ _ Hadm ef u w Hev Hsc (Hle _ _ Eu)).
+          - now rewrite map_id. }
+        assert (Hxin : In x vs) by exact (lookups_In_val em _ _ _ _ Hl Hpin Ex).
+        assert (Hok : operands_ok vs) by exact (operands_ok_data x vs Hxin Hd).
+        pose proof (trel_operands c prev HpD Hside em vs vs' Hle Hl Hrl) as Htr2.
+        assert (Hrank : Forall (fun v => length (shape v) <= length p) vs).
+        { apply (lookups_Forall V _ em (n_ins c) vs Hl). intros u w Hu Ew. exact (chain_rank_bound c Hc Hop u w Hu (Hle _ _ Ew)). }
+        assert (Hex : Exists (fun v => length (shape v) = length p) vs).
+        { apply Exists_exists. exists x. split; auto. rewrite (proj1 Hxx'). simpl. apply gather_length. }
+        destruct (pwn_transpose (F (op_type (n_op c)) (n_attrs c)) p vs vs' Hp Htr2 Hex Hrank Hok) as (Hok' & Hteq & Hlen').
+        destruct (Hpw _ _ _ _ Hop Hsem Hok) as (yv & -> & Hyv).
+        assert (Hacc' : sem (n_op c) (n_attrs c) vs' <> None).
+        { apply (Hacc (n_op c) (n_attrs c) vs vs'); [apply str_in_In; apply in_or_app; left; now apply str_in_In | congruence | exact Hse | now right]. }
+        destruct (sem (n_op c) (n_attrs c) vs') as [o'|] eqn:Es'; [|contradiction].
+        destruct (Hpw _ _ _ _ Hop Es' Hok') as (yv' & -> & Hyv').
+        exists [yv']. split; auto. rewrite Ho. constructor; [|constructor]. unfold trl. rewrite HyD. split.
+        + eapply teq_trans; [exact Hyv|]. eapply teq_trans; [exact Hteq|].
+          apply transpose_teq; auto. now apply teq_sym.
+        + now rewrite (proj1 Hyv').
+    Qed.
+
+    Lemma taction_run :
+      refinesg (tg_graph g) (mkGraph (map (subst_map (rho a)) (filter (keep a) (tg_nodes g))) (map (rho a) (tg_outputs g))) e.
+    Proof.
+      pose proof (tadm_ssa _ _ Hadm) as Hssa.
+      apply (sim_refines V teq sem Inv (keep a) (subst_map (rho a)) (tg_nodes g) (tg_outputs g) (map (rho a) (tg_outputs g)) e Hssa tinv_init).
+      intros ef0 Hev0. rewrite Hev in Hev0. injection Hev0 as <-. split.
+      - intros pre n post em em' e1 Hsplit Hpre Hle Hi Hs Hle1.
+        destruct (fresh_at V sem _ _ _ _ _ _ Hssa Hsplit Hpre) as [Hfresh Hndo].
+        assert (Hn : In n (tg_nodes g)) by (rewrite Hsplit; apply in_or_app; right; now left).
+        destruct (keep a n) eqn:Hk.
+        + destruct (in_members (chain_outs a) n) eqn:Hm.
+          * apply (tchain_step n em em' e1); auto. exact (chain_member _ _ a T1 T2 Hnd Hcs n Hn Hm).
+          * apply (tother_step n em em' e1); auto.
+        + unfold keep in Hk. apply andb_false_iff in Hk as [Hk|Hk]; apply negb_false_iff in Hk; apply node_is_outs in Hk.
+          * assert (n = T1) by (apply (T1_unique _ _ a T1 T2 Hnd Hcs n Hn); rewrite Hk; now left). subst n.
+            apply (tT1_step em em' e1); auto. apply Hfresh. rewrite Hk. now left.
+          * assert (n = T2) by (apply (T2_unique _ _ a T1 T2 Hnd Hcs n Hn); rewrite Hk; now left). subst n.
+            apply (tT2_step em em' e1); auto. apply Hfresh. rewrite Hk. now left.
+      - intros ef' o Hi Hl. now apply touts_related.
+    Qed.
+  End TAction.
+End TSound.
+
+(* ================================================================ the proved action kinds, the step and the pass *)
+Lemma first_some_spec {B C} (f : B -> option C) l y : first_some f l = Some y -> exists x, In x l /\ f x = Some y.
+Proof.
+  induction l as [|x r IH]; simpl; [discriminate|]. destruct (f x) as [z|] eqn:E.
+  - intro H. injection H as <-. eauto.
+  - intro H. destruct (IH H) as (x0 & Hx & Hf). eauto.
+Qed.
+
+Lemma leqb_eq a b : leqb a b = true -> a = b.
+Proof.
+  revert b. induction a as [|x a IH]; destruct b as [|y b]; simpl; try discriminate; auto.
+  intro H. apply andb_prop in H as [H1 H2]. apply Nat.eqb_eq in H1. subst. f_equal. auto.
+Qed.
+Lemma node_eqb_eq a b : node_eqb a b = true -> a = b.
+Proof.
+  unfold node_eqb. intro H. repeat (apply andb_prop in H as [H ?]). apply String.eqb_eq in H.
+  destruct a, b; simpl in *. f_equal; auto using leqb_eq.
+Qed.
+Lemma node_is_leqb o n : node_is o n = leqb (n_outs n) [o].
+Proof. unfold node_is, leqb. destruct (n_outs n) as [|y [|z r]]; simpl; auto; destruct (Nat.eqb y o); reflexivity. Qed.
+
+Lemma collect_es_mono g : forall fuel work visited ts es ts' es', collect g fuel work visited ts es = Some (ts', es') ->
+  exists l, es' = es ++ l.
+Proof.
+  induction fuel as [|k IH]; intros work visited ts es ts' es' H; [discriminate|]. cbn [collect] in H.
+  destruct work as [|v w]; [injection H as <- <-; exists []; now rewrite app_nil_r|].
+  destruct (mem v visited); [eauto|]. destruct (tg_scalar g v); [eauto|].
+  destruct (producer (tg_nodes g) v) as [pr|]; [|discriminate].
+  destruct (is_T pr); [eauto|]. destruct (is_elem pr); [|discriminate]. cbn [negb] in H.
+  destruct (memn pr es); [eauto|]. destruct (IH _ _ _ _ _ _ H) as [l ->]. exists (pr :: l). now rewrite <- app_assoc.
+Qed.
+
+Lemma collect_direct g fuel v T1 : collect g fuel [v] [] [] [] = Some ([T1], []) ->
+  producer (tg_nodes g) v = Some T1 /\ is_T T1 = true.
+Proof.
+  destruct fuel as [|k]; [discriminate|]. cbn [collect mem existsb]. 
+  destruct (tg_scalar g v).
+  { destruct k; [discriminate|]. cbn [collect]. discriminate. }
+  destruct (producer (tg_nodes g) v) as [pr|]; [|discriminate].
+  destruct (is_T pr) eqn:ET.
+  - destruct k; [discriminate|]. cbn [collect]. unfold addn. cbn [memn existsb app]. intro H. injection H as <-. auto.
+  - destruct (is_elem pr); [|discriminate]. cbn [negb memn existsb]. intro H.
+    destruct (collect_es_mono _ _ _ _ _ _ _ _ H) as [l Hl]. destruct l; discriminate.
+Qed.
+
+Section TPassSound.
+  Variable A : Type.
+  Notation V := (tensor A).
+  Variable sem : string -> list nat -> list V -> option (list V).
+  Hypothesis sem_proper : forall op ats vs vs' o, Forall2 teq vs vs' -> sem op ats vs = Some o ->
+    exists o', sem op ats vs' = Some o' /\ Forall2 teq o o'.
+  Hypothesis Htr : sem_transpose_spec A sem op_type.
+  Variable F : string -> list nat -> list A -> A.
+  Hypothesis Hpw : sem_pointwise_spec_n A sem op_type F.
+  Variable Fcl : list nat -> V -> A -> A.
+  Hypothesis Hcl : sem_castlike_spec_n A sem op_type Fcl.
+  Hypothesis Hcl_type : castlike_type_only A Fcl.
+  Hypothesis Hacc : sem_accepts_spec_n A sem op_type.
+
+  Notation evalg := (eval V sem).
+  Notation stepg := (step V sem).
+  Notation refinesg := (refines V teq sem).
+  Notation tadmissible := (tadmissible A sem).
+
+  (* Transpose T1 -> isolated chain -> inverse Transpose T2 (chain possibly empty) *)
+  Theorem tchain_action_sound g a T1 T2 p q e :
+    tadmissible g e -> tchain_facts g a T1 T2 p q -> castlike_data_first (ac_t1 a) (ac_chain a) = true ->
+    refinesg (tg_graph g) (rewire a (tg_graph g)) e.
+  Proof.
+    intros Hadm Htf Hdf o Hrun.
+    change (rewire a (tg_graph g)) with (rewire a (mkGraph (tg_nodes g) (tg_outputs g))). rewrite (rewire_eq _ _ a T1 T2 (proj1 (tadm_ssa _ _ _ _ Hadm)) (tf_struct _ _ _ _ _ _ Htf)).
+    assert (Hev : exists ef, evalg (tg_nodes g) e = Some ef).
+    { unfold run in Hrun. simpl in Hrun. destruct (evalg (tg_nodes g) e); [eauto|discriminate]. }
+    destruct Hev as [ef Hev].
+    exact (taction_run A sem sem_proper Htr F Hpw Fcl Hcl Hcl_type Hacc g a T1 T2 p q e ef Hadm Htf Hdf Hev o Hrun).
+  Qed.
+
+  (* the value of a Transpose node in the final environment *)
+  Lemma tnode_final g e ef n perm : tadmissible g e -> evalg (tg_nodes g) e = Some ef -> In n (tg_nodes g) ->
+    is_T n = true -> perm_of n = Some perm ->
+    exists u y x vy, n_uses n = [u] /\ n_outs n = [y] /\ ef u = Some x /\ ef y = Some vy /\
+      teq vy (transpose perm x) /\ length perm = length (shape x).
+  Proof.
+    intros Hadm Hev Hn HT Hp.
+    destruct (eval_consistent V sem _ _ _ n (tadm_ssa _ _ _ _ Hadm) Hev Hn) as (vs & o & Hl & Hs & Hlo).
+    destruct (tnode_val A sem Htr n perm vs o HT Hp Hs) as (x & vy & -> & -> & Hteq & Hlen).
+    destruct (n_uses n) as [|u [|u2 r]] eqn:Eu; simpl in Hl; try discriminate.
+    2:{ destruct (ef u); [|discriminate]. destruct (ef u2); [|discriminate]. destruct (lookups V ef r); discriminate. }
+    destruct (ef u) as [x0|] eqn:Ex; [|discriminate]. injection Hl as ->.
+    destruct (n_outs n) as [|y [|y2 r]] eqn:Eo; simpl in Hlo; try discriminate.
+    2:{ destruct (ef y); [|discriminate]. destruct (ef y2); [|discriminate]. destruct (lookups V ef r); discriminate. }
+    destruct (ef y) as [vy0|] eqn:Ey; [|discriminate]. injection Hlo as ->.
+    exists u, y, x, vy. split; [reflexivity|]. split; [reflexivity|]. split; [exact Ex|]. split; [exact Ey|]. split; [exact Hteq | exact Hlen].
+  Qed.
+
+  (* phase D case 2: T1 keeps its other consumers, the inverse T2 is bypassed *)
+  Theorem tmulti_sound g e T1 T2 p q src a0 b :
+    tadmissible g e -> In T1 (tg_nodes g) -> In T2 (tg_nodes g) ->
+    is_T T1 = true -> perm_of T1 = Some p -> In src (n_ins T1) -> In a0 (n_outs T1) ->
+    is_T T2 = true -> perm_of T2 = Some q -> In a0 (n_ins T2) -> In b (n_outs T2) -> inv_ok p q = true -> src <> b ->
+    refinesg (tg_graph g) (redirect_remove b src (tg_graph g)) e.
+  Proof.
+    intros Hadm H1 H2 HT1 Hp1 Hs1 Ho1 HT2 Hp2 Hi2 Ho2 Hinv Hne.
+    destruct (inv_ok_perms p q Hinv) as (Hiv & Hp & Hq). pose proof (tadm_ssa _ _ _ _ Hadm) as Hssa.
+    apply (redirect_remove_sound V teq (@teq_refl A) (@teq_sym A) (@teq_trans A) sem sem_proper (tg_graph g) e b src Hssa Hne).
+    - intros ef a Hev Ha. simpl in Hev.
+      destruct (tnode_final g e ef T1 p Hadm Hev H1 HT1 Hp1) as (u1 & y1 & x1 & v1 & Eu1 & Eo1 & Ex1 & Ey1 & Ht1 & Hl1).
+      destruct (tnode_final g e ef T2 q Hadm Hev H2 HT2 Hp2) as (u2 & y2 & x2 & v2 & Eu2 & Eo2 & Ex2 & Ey2 & Ht2 & Hl2).
+      assert (u1 = src) by (assert (In src (n_uses T1)) by (unfold n_uses; apply in_or_app; now left); rewrite Eu1 in H; destruct H as [|[]]; auto).
+      assert (y1 = a0) by (rewrite Eo1 in Ho1; destruct Ho1 as [|[]]; auto).
+      assert (u2 = a0) by (assert (In a0 (n_uses T2)) by (unfold n_uses; apply in_or_app; now left); rewrite Eu2 in H3; destruct H3 as [|[]]; auto).
+      assert (y2 = b) by (rewrite Eo2 in Ho2; destruct Ho2 as [|[]]; auto).
+      subst. rewrite Ha in Ey2. injection Ey2 as <-. rewrite Ex2 in Ey1. injection Ey1 as <-.
+      exists x1. split; auto.
+      eapply teq_trans; [exact Ht2|]. eapply teq_trans; [apply transpose_teq; [exact Hq | exact Hl2 | exact Ht1]|].
+      apply transpose_inverse; auto.
+    - intros pre post em a Hsplit Hpre Hfa. simpl in *.
+      assert (Ha0 : em a0 <> None).
+      { eapply (avail_from_producer V sem (tg_nodes g) e T2 a0 b Hssa H2); eauto. unfold n_uses. apply in_or_app. now left. }
+      destruct (em a0) as [va|] eqn:Ea; [|congruence].
+      eapply (avail_from_producer V sem (tg_nodes g) e T1 src a0 Hssa H1); eauto. unfold n_uses. apply in_or_app. now left.
+  Qed.
+
+  (* ---- ordering facts of an SSA run: a node's inputs are other names than its outputs, and so are the inputs of
+          the producer of one of its inputs *)
+  Lemma run_at ns e ef n : evalg ns e = Some ef -> In n ns ->
+    exists pre post em e1, ns = pre ++ n :: post /\ evalg pre e = Some em /\ stepg em n = Some e1.
+  Proof.
+    intros Hev Hn. apply in_split in Hn as (pre & post & ->). rewrite eval_app in Hev.
+    destruct (evalg pre e) as [em|] eqn:Epre; [|discriminate]. simpl in Hev.
+    destruct (stepg em n) as [e1|] eqn:Es; [|discriminate]. exists pre, post, em, e1. auto.
+  Qed.
+  Lemma step_reads em n e1 x : stepg em n = Some e1 -> In x (n_uses n) -> em x <> None.
+  Proof.
+    unfold step. destruct (lookups V em (n_uses n)) as [vs|] eqn:El; [|discriminate]. intros _ Hx.
+    exact (lookups_defined V em _ _ x El Hx).
+  Qed.
+  Lemma use_ne_def ns e ef n x y : ssa V ns e -> evalg ns e = Some ef -> In n ns -> In x (n_uses n) -> In y (n_outs n) -> x <> y.
+  Proof.
+    intros Hssa Hev Hn Hx Hy ->. destruct (run_at _ _ _ _ Hev Hn) as (pre & post & em & e1 & Hsplit & Hpre & Hs).
+    destruct (fresh_at V sem _ _ _ _ _ _ Hssa Hsplit Hpre) as [Hfresh _]. exact (step_reads _ _ _ _ Hs Hx (Hfresh y Hy)).
+  Qed.
+  Lemma use2_ne_def ns e ef n1 n2 x a y : ssa V ns e -> evalg ns e = Some ef -> In n1 ns -> In n2 ns ->
+    In x (n_uses n1) -> In a (n_outs n1) -> In a (n_uses n2) -> In y (n_outs n2) -> x <> y.
+  Proof.
+    intros Hssa Hev H1 H2 Hx Ha1 Ha2 Hy ->. destruct (run_at _ _ _ _ Hev H2) as (pre & post & em & e1 & Hsplit & Hpre & Hs).
+    destruct (fresh_at V sem _ _ _ _ _ _ Hssa Hsplit Hpre) as [Hfresh _].
+    pose proof (step_reads _ _ _ _ Hs Ha2) as Hadef. destruct (em a) as [va|] eqn:Ea; [|congruence].
+    exact (avail_from_producer V sem ns e n1 y a Hssa H1 Hx Ha1 pre (n2 :: post) em va Hsplit Hpre Ea (Hfresh y Hy)).
+  Qed.
+
+  Lemma node_eqb_refl n : node_eqb n n = true.
+  Proof.
+    assert (Hl : forall l, leqb l l = true) by (unfold leqb; induction l as [|x l IHl]; simpl; [reflexivity | now rewrite Nat.eqb_refl]).
+    unfold node_eqb. now rewrite String.eqb_refl, !Hl.
+  Qed.
+
+  Lemma apply_dag_rewire g T1 t2 t1_out t1_in b t2_in : NoDup (defs (tg_nodes g)) ->
+    first_in T1 = Some t1_in -> n_outs T1 = [t1_out] -> n_outs t2 = [b] -> first_in t2 = Some t2_in ->
+    tg_graph (apply_dag g (mkD T1 t2 [])) = rewire (mkAct t1_in t1_out [] b) (tg_graph g).
+  Proof.
+    intros Hnd Hf1 Ho1 Ho2 Hf2. unfold apply_dag, rewire, tg_graph, out1. cbn [d_T1 d_T2 d_es ac_chain ac_t1 ac_t2 ac_src].
+    rewrite Hf1, Hf2, Ho1, Ho2. cbn [hd_error tg_nodes tg_outputs g_nodes g_outputs replace_all_uses].
+    unfold new_src, chain_outs. cbn [ac_chain ac_src map last].
+    assert (Hid : map_inputs (fun n => memn n []) (rn t1_out t1_in) (tg_nodes g) = tg_nodes g).
+    { unfold map_inputs. rewrite <- (map_id (tg_nodes g)) at 2. apply map_ext. intro n. reflexivity. }
+    rewrite Hid. f_equal.
+    set (L := map (subst_node b t1_in) (tg_nodes g)).
+    assert (HndL : NoDup (defs L)) by (unfold L; now rewrite defs_subst).
+    rewrite (remove_first_filter t1_out L HndL).
+    rewrite (remove_first_filter b).
+    2:{ rewrite <- (remove_first_filter t1_out L HndL). now apply NoDup_defs_remove_first. }
+    rewrite filter_filter. apply filter_ext. intro n. rewrite !node_is_leqb. now rewrite negb_orb.
+  Qed.
+
+  (* phase C, direct pair: T1 -> T2 with T2 the only reader of T1's (unobserved) output *)
+  Theorem tdag_direct_sound g d e : tadmissible g e -> In (d_T2 d) (tg_nodes g) -> decide_dag g (d_T2 d) = Some d -> d_es d = [] ->
+    refinesg (tg_graph g) (tg_graph (apply_dag g d)) e.
+  Proof.
+    intros Hadm Hin Hd Hes o Hrun. pose proof (tadm_ssa _ _ _ _ Hadm) as Hssa.
+    remember (d_T2 d) as t2 eqn:Et2. unfold decide_dag in Hd.
+    destruct (is_T t2) eqn:ET2; [|discriminate]. cbn [negb] in Hd.
+    destruct (first_in t2) as [t2_in|] eqn:Ef2; [|discriminate]. destruct (perm_of t2) as [q|] eqn:Eq; [|discriminate].
+    destruct (collect g (collect_fuel g) [t2_in] [] [] []) as [[ts es]|] eqn:Ecol; [|discriminate].
+    destruct ts as [|T1 [|]]; try discriminate.
+    destruct (node_eqb T1 t2) eqn:Eneq; [discriminate|].
+    destruct (perm_of T1) as [p|] eqn:Ep; [|discriminate]. destruct (out1 T1) as [t1_out|] eqn:Eo1; [|discriminate].
+    destruct (first_in T1) as [t1_in|] eqn:Ef1; [|discriminate]. destruct (n_outs t2) as [|b0 br] eqn:Eo2; [discriminate|].
+    match type of Hd with (if ?c then _ else _) = _ => destruct c eqn:Ecnd; [|discriminate] end.
+    injection Hd as Hd. assert (Hes' : es = []) by (rewrite <- Hd in Hes; exact Hes). subst es.
+    assert (HT1d : d_T1 d = T1) by (now rewrite <- Hd). 
+    apply andb_prop in Ecnd as [Ecnd _]. apply andb_prop in Ecnd as [Ecnd Hcons]. apply andb_prop in Ecnd as [Hinv Hobs].
+    apply negb_true_iff in Hobs.
+    destruct (collect_direct _ _ _ _ Ecol) as [Hprod HT1]. apply producer_spec in Hprod as [HT1in Hprod].
+    assert (Hev : exists ef, evalg (tg_nodes g) e = Some ef).
+    { unfold run in Hrun. simpl in Hrun. destruct (evalg (tg_nodes g) e); [eauto|discriminate]. }
+    destruct Hev as [ef Hev].
+    destruct (tnode_final g e ef T1 p Hadm Hev HT1in HT1 Ep) as (u1 & y1 & x1 & v1 & Eu1 & Ey1 & _).
+    destruct (tnode_final g e ef t2 q Hadm Hev Hin ET2 Eq) as (u2 & y2 & x2 & v2 & Eu2 & Ey2 & _).
+    assert (y1 = t1_out) by (unfold out1 in Eo1; rewrite Ey1 in Eo1; simpl in Eo1; congruence). subst y1.
+    assert (Hb : [b0] = [y2] /\ br = []) by (rewrite Ey2 in Eo2; injection Eo2 as <- <-; auto). destruct Hb as [Hb ->]. injection Hb as ->.
+    assert (t2_in = t1_out) by (rewrite Ey1 in Hprod; destruct Hprod as [|[]]; auto). subst t2_in.
+    assert (Hin1 : In t1_in (n_uses T1)).
+    { unfold n_uses, first_in in *. destruct (n_ins T1); [discriminate|]. simpl in Ef1. injection Ef1 as ->. now left. }
+    assert (Hin2 : In t1_out (n_uses t2)).
+    { unfold n_uses, first_in in *. destruct (n_ins t2); [discriminate|]. simpl in Ef2. injection Ef2 as ->. now left. }
+    assert (Hi2 : In t1_out (n_ins t2)).
+    { unfold first_in in Ef2. destruct (n_ins t2); [discriminate|]. simpl in Ef2. injection Ef2 as ->. now left. }
+    assert (Hi1 : exists r, n_ins T1 = t1_in :: r).
+    { unfold first_in in Ef1. destruct (n_ins T1) as [|z r]; [discriminate|]. simpl in Ef1. injection Ef1 as ->. eauto. }
+    set (a := mkAct t1_in t1_out [] y2).
+    assert (Htf : tchain_facts g a T1 t2 p q).
+    { constructor; cbn [ac_src ac_t1 ac_chain ac_t2 a]; auto; [| exact I].
+      constructor; cbn [ac_src ac_t1 ac_chain ac_t2 a]; auto.
+      - intros n [].
+      - intros n [].
+      - intros x [<-|[]]. now apply tobserved_false.
+      - intros x m [<-|[]] Hm Hxm. rewrite forallb_forall in Hcons.
+        assert (Hmc : In m (consumers (tg_nodes g) t1_out)).
+        { unfold consumers. apply filter_In. split; auto. apply existsb_exists. exists t1_out. split; auto. apply Nat.eqb_refl. }
+        specialize (Hcons m Hmc). cbn [memn existsb] in Hcons. rewrite orb_false_r in Hcons. apply node_eqb_eq in Hcons. subst m.
+        unfold in_members, chain_outs. cbn [ac_chain map app]. rewrite Ey2. simpl. now rewrite Nat.eqb_refl.
+      - unfold dirty, chain_outs. cbn [ac_chain ac_t1 map app].
+        assert (N1 : t1_in <> t1_out) by (apply (use_ne_def (tg_nodes g) e ef T1 t1_in t1_out Hssa Hev HT1in Hin1); rewrite Ey1; now left).
+        assert (N2 : t1_out <> y2).
+        { intros E12. assert (E : T1 = t2).
+          { apply (defs_unique (tg_nodes g) T1 t2 t1_out (proj1 Hssa) HT1in Hin); [rewrite Ey1; now left | rewrite Ey2, <- E12; now left]. }
+          rewrite E, node_eqb_refl in Eneq. discriminate. }
+        assert (N3 : t1_in <> y2).
+        { assert (Ho1' : In t1_out (n_outs T1)) by (rewrite Ey1; now left).
+          assert (Ho2' : In y2 (n_outs t2)) by (rewrite Ey2; now left).
+          exact (use2_ne_def (tg_nodes g) e ef T1 t2 t1_in t1_out y2 Hssa Hev HT1in Hin Hin1 Ho1' Hin2 Ho2'). }
+        simpl. constructor; [intros [E|[E|[]]]; congruence|]. constructor; [intros [E|[]]; congruence|]. constructor; [intros []|constructor]. }
+    rewrite <- Hd. rewrite (apply_dag_rewire g T1 t2 t1_out t1_in y2 t1_out (proj1 Hssa) Ef1 Ey1 Ey2 Ef2).
+    exact (tchain_action_sound g a T1 t2 p q e Hadm Htf eq_refl o Hrun).
+  Qed.
+
+  (* ---- what decide_D's second case establishes *)
+  Lemma decide_D_multi_facts g T1 src a0 b : In T1 (tg_nodes g) -> decide_D g T1 = Some (TMulti src a0 b) ->
+    exists T2 p q, In T2 (tg_nodes g) /\ is_T T1 = true /\ perm_of T1 = Some p /\ In src (n_ins T1) /\ In a0 (n_outs T1) /\
+      is_T T2 = true /\ perm_of T2 = Some q /\ In a0 (n_ins T2) /\ In b (n_outs T2) /\ inv_ok p q = true /\ src <> b.
+  Proof.
+    intros HT1 H. unfold decide_D in H.
+    destruct (is_T T1) eqn:ET1; [|discriminate]. cbn [negb] in H.
+    destruct (out1 T1) as [a0'|] eqn:Eo1; [|discriminate].
+    destruct (consumers (tg_nodes g) a0') as [|c [|c2 cr]] eqn:Ec; [discriminate| |].
+    { destruct (tobserved g a0'); [discriminate|]. destruct (fwalk g 8 c a0' []) as [[chain T2]|]; [|discriminate].
+      destruct (perm_of T1); [|discriminate]. destruct (perm_of T2); [|discriminate]. destruct (n_ins T1); [discriminate|].
+      destruct (n_outs T1) as [|? [|]]; try discriminate. destruct (n_outs T2) as [|? [|]]; try discriminate.
+      destruct (_ && _); discriminate. }
+    destruct (first_in T1) as [src'|] eqn:Ef1; [|discriminate]. destruct (perm_of T1) as [p|] eqn:Ep; [|discriminate].
+    destruct (find _ (c :: c2 :: cr)) as [T2|] eqn:Efind; [|discriminate].
+    destruct (n_outs T2) as [|b' [|]] eqn:Eo2; try discriminate. destruct (n_outs T1) as [|a1 [|]] eqn:Eo1'; try discriminate.
+    destruct (Nat.eqb_spec src' b') as [|Hne]; [discriminate|]. injection H as <- <- <-.
+    apply find_some in Efind as [HT2c Hcond]. apply andb_prop in Hcond as [HT2 Hq].
+    destruct (perm_of T2) as [q|] eqn:Eq; [|discriminate].
+    assert (HT2in : In T2 (tg_nodes g) /\ In a0' (n_ins T2)).
+    { rewrite <- Ec in HT2c. unfold consumers in HT2c. apply filter_In in HT2c as [H1 H2]. split; auto.
+      apply existsb_exists in H2 as (z & Hz & E). apply Nat.eqb_eq in E. now subst. }
+    destruct HT2in as [HT2in Ha0]. exists T2, p, q. repeat split; auto.
+    - unfold first_in in Ef1. destruct (n_ins T1); [discriminate|]. simpl in Ef1. injection Ef1 as ->. now left.
+    - unfold out1 in Eo1. rewrite Eo1' in *. simpl in Eo1. injection Eo1 as ->. now left.
+    - rewrite Eo2. now left.
+  Qed.
+
+  Lemma decide_D_kind g T1 act : decide_D g T1 = Some act ->
+    match act with TChain _ | TMulti _ _ _ => True | _ => False end.
+  Proof.
+    unfold decide_D. intro H.
+    repeat match type of H with
+           | context [match ?x with _ => _ end] => destruct x; try discriminate
+           end.
+    all: injection H as <-; exact I.
+  Qed.
+
+  (* ONE iteration of the while-changed loop whose action is of a proved kind *)
+  Theorem transpose_pair_action_sound g act e : tadmissible g e -> decide_step g = Some act -> proved_kind act = true ->
+    refinesg (tg_graph g) (tg_graph (apply_taction g act)) e.
+  Proof.
+    intros Hadm Hdec Hk. unfold decide_step in Hdec.
+    destruct (first_some (decide_add g) (tg_nodes g)); [injection Hdec as <-; discriminate|].
+    destruct (first_some (decide_forest g) (tg_nodes g)); [injection Hdec as <-; discriminate|].
+    destruct (first_some (decide_dag g) (tg_nodes g)) as [d|] eqn:Edag.
+    - injection Hdec as <-. apply first_some_spec in Edag as (t2 & Ht2 & Hd).
+      assert (Ht2d : d_T2 d = t2).
+      { unfold decide_dag in Hd. destruct (is_T t2); [|discriminate]. cbn [negb] in Hd.
+        destruct (first_in t2); [|discriminate]. destruct (perm_of t2); [|discriminate].
+        destruct (collect _ _ _ _ _ _) as [[[|T1 [|]] es]|]; try discriminate.
+        destruct (node_eqb T1 t2); [discriminate|]. destruct (perm_of T1); [|discriminate]. destruct (out1 T1); [|discriminate].
+        destruct (first_in T1); [|discriminate]. destruct (n_outs t2); [discriminate|]. destruct (_ && _); [|discriminate].
+        now injection Hd as <-. }
+      simpl in Hk. destruct (d_es d) eqn:Ees; [|discriminate].
+      apply tdag_direct_sound; auto; rewrite Ht2d; auto.
+    - apply first_some_spec in Hdec as (T1 & HT1 & Hd). pose proof (decide_D_kind g T1 act Hd) as Hkind.
+      destruct act as [st|f|d|a|src a0 b]; try contradiction.
+      + destruct (decide_D_chain_facts g T1 a HT1 Hd) as (T2 & p & q & Htf).
+        exact (tchain_action_sound g a T1 T2 p q e Hadm Htf Hk).
+      + destruct (decide_D_multi_facts g T1 src a0 b HT1 Hd) as (T2 & p & q & H2 & HT1' & Hp & Hs & Ho & HT2 & Hq & Hi & Hob & Hinv & Hne).
+        exact (tmulti_sound g e T1 T2 p q src a0 b Hadm HT1 H2 HT1' Hp Hs Ho HT2 Hq Hi Hob Hinv Hne).
+  Qed.
+
+  (* every graph the loop passes through is admissible, and every action taken is of a proved kind *)
+  Fixpoint tadmissible_along (fuel : nat) (g : tgraph) (e : env V) : Prop :=
+    tadmissible g e /\
+    match fuel with
+    | O => True
+    | S k => match decide_step g with
+             | Some act => proved_kind act = true /\ tadmissible_along k (apply_taction g act) e
+             | None => True
+             end
+    end.
+
+  Theorem transpose_pair_pass_sound : forall fuel g e, tadmissible_along fuel g e ->
+    refinesg (tg_graph g) (tg_graph (transpose_pair_pass fuel g)) e.
+  Proof.
+    induction fuel as [|k IH]; simpl; intros g e [Hadm Hrest].
+    - apply (refines_refl V teq (@teq_refl A) sem).
+    - unfold transpose_pair_step. destruct (decide_step g) as [act|] eqn:Ed; simpl.
+      + destruct Hrest as [Hk Hrest]. eapply (refines_trans V teq (@teq_trans A) sem).
+        * apply (transpose_pair_action_sound g act e Hadm Ed Hk).
+        * apply IH. exact Hrest.
+      + apply (refines_refl V teq (@teq_refl A) sem).
+  Qed.
+End TPassSound.
+
+(* ---------------------------------------------------------------- non-vacuity *)
+Definition ex_tg (outs : list name) : tgraph :=
+  mkTG [mkNode "Transpose" [1; 0; 2; 1] [1] [] [2]; mkNode "CastLike" [] [2; 9] [] [3]; mkNode "Max" [] [8; 3] [] [4];
+        mkNode "Transpose" [1; 0; 2; 1] [4] [] [5]; mkNode "Relu" [] [5] [] [6]] outs (fun n => Nat.eqb n 8).
+Example transpose_chain_folded :
+  tg_nodes (transpose_pair_pass 5 (ex_tg [6])) = [mkNode "CastLike" [] [1; 9] [] [3]; mkNode "Max" [] [8; 3] [] [4]; mkNode "Relu" [] [4] [] [6]]
+  /\ pass_trace 5 (ex_tg [6]) = [6]
+  /\ option_map proved_kind (decide_step (ex_tg [6])) = Some true.
+Proof. vm_compute. auto. Qed.
+Example transpose_observed_intermediate_kept : List.length (tg_nodes (transpose_pair_pass 5 (ex_tg [6; 3]))) = 5.
+Proof. vm_compute. reflexivity. Qed.
+Example transpose_multi_consumer :
+  tg_nodes (transpose_pair_pass 5 (mkTG [mkNode "Transpose" [1; 1; 0] [1] [] [2]; mkNode "Transpose" [1; 1; 0] [2] [] [3]; mkNode "Relu" [] [2] [] [4]] [3; 4] (fun _ => false)))
+  = [mkNode "Transpose" [1; 1; 0] [1] [] [2]; mkNode "Relu" [] [2] [] [4]].
+Proof. vm_compute. reflexivity. Qed.
